@@ -19,7 +19,11 @@ CLAIMS = {
              "output nest is proved to execute the observable statements for exactly the same iterator values in the "
              "prescribed order (explicit witnesses), with each licensing Check_* called on the right statements; the "
              "side-condition predicates of new_eff.py are proved to imply their Bernstein-style conditions over "
-             "abstract location sets; the Kleene lowering and the div/mod constraint of SMTSolver are proved sound.",
+             "abstract location sets; the Kleene lowering and the div/mod constraint of SMTSolver are proved sound. "
+             "Thirteen statement/expression-level rewrites (merge_writes, split_write, fold_into_reduce, inline_assign, "
+             "lift_reduce_constant, commute/reassociate/rewrite_expr, bind_expr, specialize, delete_pass, "
+             "eliminate_dead_code, insert_pass) are proved against a store semantics over z3 reals/arrays: for every "
+             "initial store the rewritten block leaves the same final contents.",
         design_ref="3/C01",
         note="Not whole-program equivalence: effect extraction, Alpha_Rename/SubstArgs, the pattern matcher, every "
              "primitive not listed (stage_mem, bind_expr, inline, autolift, specialize, ...), compositions in the "
@@ -56,10 +60,16 @@ CLAIMS = {
              "injective for all values; the storage-moving rewrites are proved to call Check_Bounds on the final ir and "
              "the new allocation (resp. Check_Aliasing on the result) on every normally returning path; the results of "
              "the allocation-moving and block-copying rewrites on real procedures are proved well scoped (every use "
-             "in the scope of exactly one declaration, copied blocks alpha-renamed).",
+             "in the scope of exactly one declaration, copied blocks alpha-renamed). Alpha_Rename and SubstArgs are "
+             "proved by structural induction (fresh injective binders, uses renamed consistently, free symbols and "
+             "everything else unchanged, scope frames restored; substitution denotationally correct), all 37 "
+             "duplication sites of LoopIR_scheduling.py are scanned for the rename, every rewrite that moves code "
+             "across a binder (lift_scope, fission, reorder, fuse, join, unroll, remove/add_loop, bind_expr, "
+             "extract_subproc, stage_mem, autolift_alloc, delete_buffer) is proved to return a well-scoped procedure "
+             "or raise, and stage_mem's safety guards are proved to cover both bounds of every dimension.",
         design_ref="3/C04",
-        note="Assumes Check_Bounds/Check_Aliasing themselves, Alpha_Rename/SubstArgs; uninitialised reads are not "
-             "covered. Known findings: F20 (sink_alloc leaves the else branch using a symbol declared only in the "
+        note="Assumes Check_Bounds/Check_Aliasing themselves; SubstArgs is capture-free only under the callers' "
+             "preconditions (listed); uninitialised reads are not covered. Known findings: F20 (sink_alloc leaves the else branch using a symbol declared only in the "
              "if branch; the golden file of an existing test records that output) and F23 (insert_noop_call checks "
              "only argument types; an existing test inserts a call with an out-of-range window).",
         technique=_T + "; protocol obligations via ghost call recorders; scoping checker as ghost function over the result tree"),
@@ -88,11 +98,17 @@ CLAIMS = {
              "with symbolic positions: a surviving statement is forwarded to the very same object, a deleted one is "
              "invalid, blocks never gain foreign statements, gaps follow their anchor; _compose, Procedure.forward "
              "(oldest first, identity for the same procedure, error for unrelated) and implicit forwarding by "
-             "CursorArgumentProcessor.",
+             "CursorArgumentProcessor. For 42 scheduling primitives every cursor of the input procedure (nodes at "
+             "every depth, all gaps, all contiguous blocks) is forwarded through the primitive's composed forwarding "
+             "function and proved to be invalid or to denote the same code in the result (never a different "
+             "statement, never dangling; carried-over statements are not reported invalid; documented images of the "
+             "focus; foreign cursors rejected), which also fixes the order of every _compose.",
         design_ref="3/C06",
-        note="Tree shapes are bounded (edited block length 0-4, nesting depth <= 2) with symbolic positions; the "
-             "compositions of edit forwardings inside each scheduling primitive are not covered; expression cursors "
-             "are out of scope.",
+        note="Tree shapes are bounded (edited block length 0-4, blocks of 1-3 statements, nesting depth <= 2) with "
+             "symbolic positions and literals; single-edit primitives returning one elementary forwarding function "
+             "and the forwarding-less DoLiftAlloc/DoFissionLoops/DoPartialEval are not covered; expression cursors "
+             "are out of scope. Known finding F50: add_loop(guard=True) forwards a cursor to the wrapped statement "
+             "to the new guard (a test relies on it).",
         technique=_T + "; symbolic ranges/slices (pyvc/srange.py)"),
     "C07": dict(
         text="Every in-place mutation site (548 obligations) in the scheduling, effect-analysis, cursor, LoopIR, "
